@@ -66,6 +66,11 @@ TOL_DOT = 1e-9
 # 4276f12). Border cases draw the switch and assert the same oracles with unsorted neighbourhoods.
 UNSORTED_BORDER_ASSERTED = __import__("os").environ.get("C15_ASSERT_UNSORTED_BORDER", "1") == "1"     # default: asserted
 
+# The unchanged detector treats every edge that has an ENTRY in the sparse 'hard_edges' attribute as hard, also when the value
+# written there is False (finding reported with scratch/fixes/C15-4-hard-edge-flag-value.diff). Cases that write False flags are
+# generated always; the flags are only written (and the oracle only told about them) when this is on, i.e. once the fix is in /repo.
+HARD_FLAG_VALUES_ASSERTED = __import__("os").environ.get("C15_ASSERT_HARD_FLAG_VALUES", "0") == "1"
+
 CFG_KEYS = ("sort_neighborhoods", "display_duplicate_attribute_warning", "export_edges_in_obj", "complete_faces_from_cells",
             "complete_edges_from_faces")
 
@@ -116,7 +121,7 @@ def build_mesh(M, V, F, E=None, vform="float", fform="list"):
         raw.vertices += [[float(x) for x in v] for v in V]
     if fform.startswith("np_"):
         dt = {"np_int64": np.int64, "np_int32": np.int32, "np_int16": np.int16, "np_uint8": np.uint8}[fform]
-        if len(V) > np.iinfo(dt).max:
+        if len(V) - 1 > np.iinfo(dt).max:     # the largest id must fit (256 vertices still fit uint8)
             dt = np.int32
         conv = lambda r: np.array(r, dtype=dt)
     elif fform == "tuple":
@@ -165,7 +170,7 @@ def holey_grid(draw, big=False):
     return V, F, tags
 
 
-SEQ_OPS = ["all", "all", "all", "boundary", "boundary", "cycle", "cycle", "cycle_default", "cycle_bad", "is_border", "detector", "other_mesh"]
+SEQ_OPS = ["all", "all", "all", "boundary", "boundary", "cycle", "cycle", "cycle_default", "cycle_bad", "is_border", "detector", "other_mesh", "clone"]
 
 
 @st.composite
@@ -198,7 +203,7 @@ def border_case(draw, big=False):
         raise AssertionError("generator produced an invalid surface")
     ops = draw(st.lists(st.tuples(st.sampled_from(SEQ_OPS), st.integers(0, 10 ** 4)).map(list), min_size=3, max_size=10))
     return {"V": V, "F": F, "tags": tags, "s0": draw(st.integers(0, 10 ** 4)), "probe": draw(st.integers(0, 10 ** 4)), "ops": ops,
-            "cfg": draw(config_draw()), "fform": draw(st.sampled_from(FFORMS))}
+            "cfg": draw(config_draw()), "fform": draw(st.sampled_from(FFORMS)), "recycle": draw(st.sampled_from([0, 0, 0, 2, 3]))}
 
 
 # around / above 2^10..2^16 and 10^3, 10^4; the two largest are rare (10-14 s per case)
@@ -211,6 +216,10 @@ def border_huge_case(draw):
     vertex of huge degree, one big polygon, a thin annulus with two long loops)"""
     fam = draw(st.sampled_from(["strip", "ladder", "ladder_tri", "ladder2", "fan_open", "polygon", "annulus"]))
     n = draw(st.sampled_from(HUGE_SIZES))
+    exact = draw(st.sampled_from(["no"] * 16 + ["p8"] * 5 + ["p16"]))
+    if exact != "no":       # vertex / loop counts of exactly 2^8 - 1, 2^8, 2^8 + 1 (2^16 ...): a strip of n triangles has n + 2 vertices
+        fam = "strip"
+        n = (256 if exact == "p8" else 65536) - 2 + draw(st.sampled_from([-1, 0, 1]))
     if fam == "polygon":
         n = min(n, 12000)          # the reference ring computation is quadratic in the face size
     if fam == "strip":
@@ -227,7 +236,7 @@ def border_huge_case(draw):
         V, F = G.single_polygon(n)
     else:
         V, F = G.grid(n, 1, wrap_u=True)
-    tags = ["huge=" + fam]
+    tags = ["huge=" + fam] + (["exact-power-of-two:" + exact] if exact != "no" else [])
     if draw(st.booleans()):
         V, F, _ = G.relabel(V, F, draw(st.integers(0, 10000)), reverse=draw(st.booleans()))
         tags.append("relabelled")
@@ -236,7 +245,7 @@ def border_huge_case(draw):
     ops = draw(st.lists(st.tuples(st.sampled_from(["all", "boundary", "cycle", "cycle_default", "detector"]), st.integers(0, 10 ** 6)).map(list),
                         min_size=2, max_size=4))
     return {"V": V, "F": F, "tags": tags, "starts": [draw(st.integers(0, 10 ** 6)) for _ in range(3)], "ops": ops,
-            "cfg": draw(config_draw()), "fform": draw(st.sampled_from(FFORMS))}
+            "cfg": draw(config_draw()), "fform": draw(st.sampled_from(FFORMS)), "recycle": draw(st.sampled_from([0, 0, 0, 2, 3]))}
 
 
 # ============================================================================================ border: oracle
@@ -509,6 +518,13 @@ def border_sequence(ctx, M, m, B, ops, label):
                 fe = set(ints(det.feature_edges))
                 ctx.check(fe == set(B.eid[e] for e in B.bedges), "detector:only_border",
                           f"{what}: only_border detector flags edges {sorted(fe)[:20]}, border edges are {sorted(B.eid[e] for e in B.bedges)[:20]}")
+        elif op == "clone":
+            import copy, pickle
+            try:
+                m = copy.deepcopy(m) if a % 2 else pickle.loads(pickle.dumps(m))
+                ctx.label("seq:clone")
+            except Exception:
+                ctx.label("copy-failed")
         elif op == "containers":
             pass
         else:
@@ -587,6 +603,20 @@ def fn_border(case, ctx):
     # --- D. generated order of calls on one mesh object
     if ops:
         border_sequence(ctx, M, surface_from(V, F), B, ops, "sequence on one mesh:")
+    # objects dropped and rebuilt: relabelled variants (same element counts, other border) one after the other, each garbage collected
+    nrec = int(case.get("recycle", 0))
+    if nrec:
+        import gc
+        ctx.label("recycle")
+        del m
+        for k in range(nrec):
+            gc.collect()
+            Vk, Fk, _ = G.relabel(V, F, case["probe"] + k, reverse=bool(k % 2))
+            Bk = BorderRef(Vk, Fk)
+            mk = surface_from(Vk, Fk)
+            Bk.eid = {e: i for i, e in enumerate(tuple(ints(e)) for e in mk.edges)}
+            border_sequence(ctx, M, mk, Bk, [("all", k), ("boundary", k), ("cycle", case["s0"] + k)], f"rebuilt relabelled mesh #{k}:")
+            del mk
     check_config(M, want, ctx, "after the border calls")
 
 
@@ -785,16 +815,86 @@ def polycube(draw, big=False):
     return V, F, ["seed=polycube", f"cubes={len(cells)}", "cubecells=" + mode]
 
 
+def split_edges(V, F, picks, integer=False):
+    """insert the midpoint of an edge into the (one or two) faces along it: the two faces then share TWO edges around a vertex of
+    valence 2 (straight corner of 180 degrees in both faces); picks prefer interior edges"""
+    V = [list(v) for v in V]; F = [list(f) for f in F]
+    for i in picks:
+        ref = SurfRef(len(V), F)
+        es = sorted(ref.uedges)
+        inner = [e for e in es if (e[0], e[1]) in ref.he and (e[1], e[0]) in ref.he]
+        e = inner[(i // 4) % len(inner)] if (inner and i % 4) else es[(i // 4) % len(es)]
+        V, F = G.op_edge_split(V, F, es.index(e))
+        V = [list(v) for v in V]
+        if integer:
+            V[-1] = [int(round(x)) for x in V[-1]]
+    return V, F
+
+
+def fix_rotations(V, F):
+    """the library's face normal uses the first three vertices of a face: start every face at a corner that is not straight"""
+    A = np.array(V, dtype=float)
+    out = []
+    for f in F:
+        n = len(f)
+
+        def sin_at(k):
+            u = A[f[(k + 1) % n]] - A[f[k]]; w = A[f[(k + 2) % n]] - A[f[k]]
+            return np.linalg.norm(np.cross(u, w)) / (np.linalg.norm(u) * np.linalg.norm(w))
+        if n > 3 and sin_at(0) < 1e-3:
+            k = max(range(n), key=sin_at)
+            f = f[k:] + f[:k]
+        out.append(list(f))
+    return out
+
+
+def add_isolated(V, F, where):
+    """unused vertices (in no face) at id 0 / a middle id / the last id"""
+    V = [list(v) for v in V]; F = [list(f) for f in F]
+    ints_only = all(isinstance(x, int) for v in V for x in v)
+    xmax = max(v[0] for v in V); span = max(max(v[0] for v in V) - min(v[0] for v in V), 1e-300)
+    for k, w in enumerate(where):
+        pos = {"first": 0, "middle": len(V) // 2, "last": len(V)}[w]
+        p = [xmax + 3 + k, 0, 0] if ints_only else [xmax + (0.37 + 0.21 * k) * span, V[0][1], V[0][2]]
+        V.insert(pos, p)
+        F = [[v + 1 if v >= pos else v for v in f] for f in F]
+    return V, F
+
+
+def dihedron(kind, n):
+    """two faces glued along several edges, folded flat onto each other (normals 180 degrees apart)"""
+    if kind == "quads180":      # two quads around an interior vertex (3) of valence 2
+        return [[0.0, 0.0, 0.0], [1.0, 0.0, 0.0], [1.0, 1.0, 0.0], [0.0, 1.0, 0.0], [0.9, -0.2, 0.0]], [[0, 1, 2, 3], [0, 3, 2, 4]]
+    V = [[math.cos(2 * math.pi * i / n) * (1 + 0.1 * (i % 2)), math.sin(2 * math.pi * i / n), 0.0] for i in range(n)]
+    return V, [list(range(n)), list(range(n))[::-1]]       # 'pillow': the same vertex cycle in both orientations (closed)
+
+
 @st.composite
 def feature_case(draw, big=False, huge=False):
     max_att = 60 if big else 20
-    fam = draw(st.sampled_from(["tri", "tri", "pyr", "pyr", "roof", "roof", "roof", "generic", "polycube", "polycube"]))
+    fam = draw(st.sampled_from(["tri", "tri", "tri", "pyr", "pyr", "roof", "roof", "roof", "roof", "generic", "polycube", "polycube",
+                                "polycube", "dihedron"]))
     if huge:
         fam = "roof"            # size regime: 600 .. 2000 cells, more than 1000 interior vertices
     tags = []
     vform = "float"
-    if fam == "polycube":
+    pillow = False
+    nsplit = draw(st.sampled_from([0, 0, 0, 1, 2, 3])) if fam not in ("generic", "dihedron") and not huge else 0
+    picks = [draw(st.integers(0, 1000)) for _ in range(nsplit)]
+    if fam == "dihedron":
+        kind = draw(st.sampled_from(["quads180", "pillow"]))
+        V, F = dihedron(kind, draw(st.integers(3, 6)))
+        pillow = kind == "pillow"
+        sc = draw(st.sampled_from([1.0, 1e-3, 1e3]))
+        V = [[0.0 if abs(x) < 1e-12 * sc else float(x) for x in v] for v in G.rigid((np.array(V) * sc).tolist(), draw(st.integers(0, 10 ** 6)))]
+        if draw(st.booleans()):
+            V, F, _ = G.relabel(V, F, draw(st.integers(0, 10000)), reverse=draw(st.booleans()))
+        tags = ["seed=dihedron:" + kind, f"scale={sc:g}"]
+    elif fam == "polycube":
         V, F, tags = draw(polycube(big))
+        if nsplit:
+            V, F = split_edges([[(2 ** nsplit) * x for x in v] for v in V], F, picks, integer=True)      # midpoints stay integer
+            tags.append(f"split-edges={nsplit}")
         vform = draw(st.sampled_from(["int", "npint", "float", "npfloat", "npfloat32", "moved", "moved"]))
         if vform == "moved":
             vform = "float"
@@ -831,6 +931,9 @@ def feature_case(draw, big=False, huge=False):
                 tags.append("huge-roof")
         V = [list(v) for v in V]; F = [list(f) for f in F]
         natt = draw(st.integers(0, max_att if fam == "tri" else max_att // 2))
+        if fam == "tri" and big and draw(st.sampled_from([False, False, False, True])):
+            natt = draw(st.sampled_from([252, 253, 254, 255, 256]))        # vertex / face counts of exactly 255, 256, 257 ...
+            tags.append("counts-around-256")
         ref = SurfRef(len(V), F)
         free = [(a, b, fi) for (a, b), (fi, _) in sorted(ref.he.items()) if (b, a) not in ref.he]
         stripmode = draw(st.booleans())
@@ -843,6 +946,9 @@ def feature_case(draw, big=False, huge=False):
             w = len(V) - 1
             free += [(a, w, len(F) - 1), (w, b, len(F) - 1)]
         tags.append("attached=" + ("0" if natt == 0 else "1-5" if natt <= 5 else "6+"))
+        if nsplit:
+            V, F = split_edges(V, F, picks)
+            tags.append(f"split-edges={nsplit}")
         sc = draw(st.sampled_from([1.0, 1.0, 1.0, 1e-3, 1e3, 7.3, 1e-6, 1e6]))
         mot = draw(st.booleans())
         A = np.array(V) * sc
@@ -858,8 +964,14 @@ def feature_case(draw, big=False, huge=False):
         # no subnormal / cancellation-noise coordinates (Vec.normalized rejects underflow; not this property's concern)
         V = [[0.0 if abs(x) < 1e-12 * sc else float(x) for x in v] for v in V]
         F = [list(map(int, f)) for f in F]
+    iso = draw(st.sampled_from([[], [], [], ["first"], ["last"], ["middle"], ["first", "middle", "last"]]))
+    if iso and not huge:
+        V, F = add_isolated(V, F, iso)
+        tags.append("isolated-vertices")
+    F = fix_rotations(V, F)
     ref = SurfRef(len(V), F)
-    if ref.validate() is not None or ref.border_loops() is None:
+    err = ref.validate()
+    if (err is not None and not (pillow and err.startswith("two faces with vertex set"))) or ref.border_loops() is None:
         raise AssertionError("generator produced an invalid surface")
     # declared (hard) edges
     p = draw(st.sampled_from([0.0, 0.3, 0.6, 1.0]))
@@ -872,12 +984,16 @@ def feature_case(draw, big=False, huge=False):
                 "corner_order": draw(st.sampled_from([1, 2, 3, 4, 4, 4, 5, 6, 7, 8, 8, 12, 16, 24, 61, 100])), "graph": draw(st.booleans()),
                 "optform": draw(st.sampled_from(["py", "py", "np"])),
                 "via": draw(st.sampled_from(["run", "run", "detect", "call"])), "verbose": draw(st.sampled_from([False] * 4 + [True]))}
-    second = draw(st.sampled_from([None, None, None, "same-detector", "moved-same-detector", "moved-new-detector", "other-mesh"]))
+    second = draw(st.sampled_from([None, None, None, "same-detector", "moved-same-detector", "moved-new-detector", "other-mesh",
+                                   "deepcopy-mesh", "pickle-mesh", "copy-detector"]))
+    # flags written as False into the sparse 'hard_edges' attribute: on declared edges (un-marking them) and on undeclared ones
+    unmark = [rnd.randrange(10 ** 6) for _ in range(draw(st.sampled_from([0, 0, 1, 3])))]
     return {"V": V, "F": F, "E": E, "tags": tags, "opts": opts(), "pre_normals": draw(st.sampled_from([False] * 5 + [True])),
             "rerun": opts() if draw(st.sampled_from([False] * 4 + [True])) else None, "vform": vform, "second": second,
             "stretch": [draw(st.sampled_from([0.5, 0.8, 1.0, 1.25, 2.0])) for _ in range(3)],
-            "mix_border": draw(st.sampled_from([False, False, True])), "cfg": draw(config_draw()), "fform": draw(st.sampled_from(FFORMS)),
-            "after_raise": draw(st.sampled_from([False, False, False, True]))}
+            "mix_border": draw(st.sampled_from([False, False, True])) and not pillow, "cfg": draw(config_draw()), "fform": draw(st.sampled_from(FFORMS)),
+            "after_raise": draw(st.sampled_from([False, False, False, True])), "pillow": pillow, "unmark": unmark,
+            "recycle": draw(st.sampled_from([0, 0, 0, 2, 3]))}
 
 
 # ============================================================================================ features: oracle
@@ -1050,7 +1166,8 @@ def fn_features(case, ctx):
     import mouette as M
     V, F, E = case["V"], case["F"], [tuple(e) for e in case["E"]]
     ref = SurfRef(len(V), F)
-    if ref.validate() is not None or ref.border_loops() is None:
+    err = ref.validate()
+    if (err is not None and not (case.get("pillow") and err.startswith("two faces with vertex set"))) or ref.border_loops() is None:
         raise AssertionError("invalid generated case")
     hard = set(key(e) for e in E)
     if len(hard) != len(E) or not hard <= ref.uedges:
@@ -1089,6 +1206,16 @@ def fn_features(case, ctx):
         if abs(d - 0.5) <= tol or (h and abs(d - 0.8) <= tol):
             ctx.label("threshold-exempt-edge")
     bv = ref.border_vertices()
+    pairs = {}
+    for (a, b) in dots:
+        k2 = tuple(sorted((ref.he[(a, b)][0], ref.he[(b, a)][0])))
+        pairs[k2] = pairs.get(k2, 0) + 1
+    if any(c >= 2 for c in pairs.values()):
+        ctx.label("two-faces-share-several-edges")
+        if any(c >= 2 and min(dots[e] for e in dots if tuple(sorted((ref.he[e][0], ref.he[(e[1], e[0])][0]))) == k2) < 0.5 for k2, c in pairs.items()):
+            ctx.label("two-faces-share-several-CREASE-edges")
+    if len(set(v for f in F for v in f)) < len(V):
+        ctx.label("isolated-vertices")
     if any(v not in bv for f in F for v in f):
         ctx.label("has-interior-vertex")
     ctx.label("closed" if not bv else "bordered")
@@ -1118,6 +1245,15 @@ def fn_features(case, ctx):
             return
     else:
         ctx.check(not hard, "hard-edges-flag", "declared edges but no hard_edges attribute")
+    if case.get("unmark") and HARD_FLAG_VALUES_ASSERTED and m.edges.has_attribute("hard_edges"):
+        # a flag written as False is not a declaration: un-mark some declared edges, write False on some undeclared ones
+        ctx.label("hard-flag-written-False")
+        ha = m.edges.get_attribute("hard_edges")
+        hard = set(hard)
+        for u in case["unmark"]:
+            ie = u % len(medges)
+            ha[ie] = False
+            hard.discard(medges[ie])
     if case["pre_normals"]:
         ok, _ = ctx.call("face_normals", M.attributes.face_normals, m)
         if not ok:
@@ -1192,8 +1328,54 @@ def fn_features(case, ctx):
         if B is not None:
             B = BorderRef(V2, F)
             B.eid = {e: i for i, e in enumerate(medges)}
+    elif second in ("deepcopy-mesh", "pickle-mesh"):
+        # a copy of the mesh (with everything the first run left on it) is a mesh like any other
+        import copy, pickle
+        try:
+            m2 = copy.deepcopy(m) if second == "deepcopy-mesh" else pickle.loads(pickle.dumps(m))
+        except Exception:
+            m2 = None
+            ctx.label("copy-failed")
+        if m2 is not None:
+            ctx.label("second=" + second)
+            snap1 = det_snapshot(last[0])
+            d3 = make_detector(M, o)
+            if run_quiet(ctx, "run-copy", d3, o, m2):
+                check_detector(ctx, M, m2, d3, o, ref, medges, dots, hard, asum, V, False, f"run on a {second} of the mesh", tol=tol)
+                ctx.check(det_snapshot(last[0]) == snap1 and mesh_snapshot(m) == snap, "feat:first-detector-changed",
+                          "the first detector / mesh changed when a copy of the mesh was processed")
+    elif second == "copy-detector":
+        import copy, pickle
+        try:
+            d3 = copy.deepcopy(last[0]) if case["stretch"][0] < 1 else pickle.loads(pickle.dumps(last[0]))
+        except Exception:
+            d3 = None
+            ctx.label("copy-failed")
+        if d3 is not None:
+            ctx.label("second=copy-detector")
+            ctx.check(det_snapshot(d3) == det_snapshot(last[0]), "feat:copy", "a copy of the detector reports other containers than the original")
+            if run_quiet(ctx, "rerun", d3, last[1], m):
+                check_detector(ctx, M, m, d3, last[1], ref, medges, dots, hard, asum, V, False, "copy of the detector run again on the mesh", tol=tol)
     if B is not None and (want["sort_neighborhoods"] or UNSORTED_BORDER_ASSERTED):
         border_sequence(ctx, M, m, B, [("boundary", 0), ("all", 0), ("cycle_default", 0)], "after the detector:")
+    # objects dropped and rebuilt: the SAME detector processes new mesh objects of identical element counts but other geometry (an
+    # id()-keyed or per-detector cache would hand back the answers of a dead mesh whose address was recycled)
+    nrec = int(case.get("recycle", 0))
+    if nrec:
+        import gc
+        ctx.label("recycle")
+        del m
+        for k in range(nrec):
+            gc.collect()
+            st3 = np.array([[0.5, 1.0, 2.0], [2.0, 0.8, 0.5], [1.0, 1.0, 1.0]][k % 3], dtype=float)
+            Vk = (np.array(V, dtype=float) * st3).tolist()
+            mk = feature_mesh(M, Vk, F, E, "float")
+            _, _, dk, ak = own_geometry(Vk, F, ref)
+            hk = set(key(e) for e in E)
+            if run_quiet(ctx, "run-recycled", det, o, mk):
+                check_detector(ctx, M, mk, det, o, ref, [tuple(ints(e)) for e in mk.edges], dk, hk, ak, Vk, True,
+                               f"same detector on rebuilt mesh #{k} (stretch {st3.tolist()}) after the previous mesh was dropped", tol=tol)
+            del mk
     check_config(M, want, ctx, "after the detector runs")
 
 
